@@ -25,3 +25,7 @@ import Mb2.Props.FnsCtor
 import Mb2.Props.FnsFb
 import Mb2.Props.FnsElfIter
 import Mb2.Props.FnsGetters
+import Mb2.Props.FnsFind
+import Mb2.Props.FnsCast
+import Mb2.Props.FnsBoxed
+import Mb2.Props.FnsBoxedCtor
